@@ -173,6 +173,44 @@ def shard(p):
             else:
                 want = x * s1 / s2
                 checks.append((law, ["%s %s to %s" % (xs, t1, t2)], (lambda vs, want=want: None if vs[0][0] == want else "is %s, the scales give %s" % (vs[0][0], want))))
+        # prefix x power grid, exhaustive: every prefix of one unit (rotating with seed and shard) at every power -64..64 converts to the
+        # bare unit by exactly 10^(prefix x power); a table of powers of ten that is wrong in ONE slot (10^38 = hecto^19 = deca^38, seed
+        # C05-h) is only met when the product prefix x power takes every value
+        grid_keys = sorted(k for k, es in V.by_key.items() if len({e["prefix"] for e in es}) >= 15 and any(e["bare"] for e in es))
+        if grid_keys:
+            gk = grid_keys[(p["seed"] * 7 + p["shard"]) % len(grid_keys)]
+            bare0 = [e for e in V.by_key[gk] if e["bare"]][0]
+            seen_px = set()
+            for e in V.by_key[gk]:
+                if e["bare"] or e["prefix"] in seen_px:
+                    continue
+                seen_px.add(e["prefix"])
+                for n in range(-64, 65):
+                    if n == 0 or (n % p["nshards"]) != (p["shard"] % p["nshards"]) and abs(n) > 3:
+                        continue
+                    want = F(10) ** ((e["prefix"] - bare0["prefix"]) * n)
+                    form = rng.random()
+                    if form < 0.7 or abs(n) < 2:
+                        q = "1 %s^%d to %s^%d" % (e["word"], n, bare0["word"], n)
+                    elif form < 0.85:
+                        k1 = rng.randint(1, abs(n) - 1) * (1 if n > 0 else -1)
+                        q = "1 %s^%d*%s^%d to %s^%d" % (e["word"], k1, e["word"], n - k1, bare0["word"], n)
+                    else:
+                        q, want = "1 %s^%d to %s^%d" % (bare0["word"], n, e["word"], n), 1 / want
+                    checks.append(("prefix-power-grid", [q], (lambda vs, want=want: None if vs[0][0] == want else "is %s, prefix times power gives %s" % (vs[0][0], want))))
+        # confusable spellings with the SAME dimension (c h = light-hour | ch = chain, m in | min ...): converting one into the other in
+        # one query is an ordinary conversion between two different units (seed C03-h: unit texts remembered without their blanks)
+        conf = [(a, b, ab) for a, b, ab in G.confusables(V) if R.add_dims(a["dims"], b["dims"]) == ab["dims"]]
+        for _ in range(min(len(conf) * 2, p["n"] // 20)):
+            a, b, ab = rng.choice(conf)
+            s_ab2, _d = V.factors_si([(a, 1), (b, 1)])
+            s_ab1, _d = V.factors_si([(ab, 1)])
+            xs, x = mag(rng)
+            if rng.random() < 0.5:
+                q, want = "%s %s %s to %s" % (xs, a["word"], b["word"], ab["word"]), x * s_ab2 / s_ab1
+            else:
+                q, want = "%s %s to %s %s" % (xs, ab["word"], a["word"], b["word"]), x * s_ab1 / s_ab2
+            checks.append(("confusable", [q], (lambda vs, want=want: None if vs[0][0] == want else "is %s, the scales of the two spellings give %s" % (vs[0][0], want))))
         # provenance: a quantity that was not typed in but looked up (its unit comes out of the stored data, not out of the unit
         # parser) or computed converts like the literal of the same value and unit (seed C03-g: a field of the unit that only the
         # constructors maintain). value and unit are taken from the phrase evaluated on its own.
@@ -224,7 +262,7 @@ def shard(p):
             acc.evaluations += 1
             acc.count("law_" + law)
             if law != "absolute" or any(c in qs[0] for c in "*/^") or not any(e["bare"] and (" " + e["word"] + " ") in (" " + qs[0] + " ") for e in V.entries[:0]):
-                if any(c in qs[0] for c in "*/^") or law in ("prefix", "power", "product", "pairs", "provenance"):
+                if any(c in qs[0] for c in "*/^") or law in ("prefix", "power", "product", "pairs", "provenance", "confusable", "prefix-power-grid"):
                     acc.nontriv(qs[0])
             vals, bad = [], None
             for q, r in zip(qs, rs):
